@@ -80,6 +80,14 @@ theorem identify_mag_sound (ops : List MOpQ) (eps : Rat) (g : MagSpaceGroup) (h 
   · obtain ⟨dbM, hh, dbOps, gens, a, d, corr, hdb, _, _, _, _, _, _, _, _, hconj, hT, hmatch⟩ := h4 h34
     exact key dbM corr (findConjugatorType4_some hconj).1 hT hdb hmatch
 
+/-- Non-vacuity: the type-IV list `{1, (1, (0, 1/2, 1/2))'}` (anti-translation along `b + c`) is identified as UNI 3
+(`P 1 1c'`) with a unimodular change of basis that carries the anti-translation onto the tabulated `(0, 0, 1/2)`. -/
+example :
+    (identifyMag [⟨M3.one, Q3.zero, false⟩, ⟨M3.one, ⟨0, 1 / 2, 1 / 2⟩, true⟩] (1 / 100000000)).toOption.map
+      (fun g => (g.uni, g.ctype, g.T.linear.det, (transformMOp g.T ⟨M3.one, ⟨0, 1 / 2, 1 / 2⟩, true⟩).trans.map ratFrac)) =
+      some (3, 4, 1, ⟨0, 0, 1 / 2⟩) := by
+  decide +kernel
+
 /-- **As a set with time-reversal flags.**  When the tabulated primitive operations of `uni` have pairwise distinct keys
 `(R, θ)` (they are coset representatives modulo translations: a table fact, evaluated by the compiled model on every
 table row), the keys of the transformed operations are a permutation of the tabulated keys: nothing is missing and
@@ -166,44 +174,15 @@ example : ((dbRef? 2).bind fun r => (normalizerAll r.1 r.2 (1 / 100000000)).map 
 
 /-! ### completeness -/
 
-/-- Table fact (kernel-decided on the regenerated type table): every ITA number `1..230` has a UNI range, every UNI number
-of the range has a type entry, and the range contains an entry of construct type I and one of type II. -/
-def rangeOK (n : Nat) : Bool :=
-  match uniRange? n with
-  | none => false
-  | some range =>
-    range.all (fun u => (magType? u).isSome) &&
-    range.any (fun u => (magType? u).any fun t => t.constructType == 1) &&
-    range.any (fun u => (magType? u).any fun t => t.constructType == 2)
-
+/-- **UNI ranges (table theorem, kernel-decided on the regenerated type table)**: every ITA number `1..230` has a UNI range
+(`uni_number_range`), every UNI number of the range has a type entry, and the range contains an entry of construct type I
+and one of construct type II (`S5m.rangeOK`). -/
 theorem uni_range_table : ∀ k, k < 230 → rangeOK (k + 1) = true := by decide +kernel
 
-/-- First success of the loop over a UNI range for construct types I / II. -/
-theorem findSome_type12 (ops : List MOpQ) (eps : Rat) (c : Nat) (hc : c = 1 ∨ c = 2) (stdT : UTrans) (h0 : Option Nat)
-    (norm0 : Thunk (Option (List UTrans))) : ∀ (l : List Nat),
-    (∀ u ∈ l, (magType? u).isSome = true) → (l.any fun u => (magType? u).any fun t => t.constructType == c) = true →
-    ∃ u ∈ l, l.findSome? (tryUni ops eps c stdT h0 norm0) = some (.ok ⟨u, c, stdT⟩)
-  | [], _, hany => by simp at hany
-  | u :: l, hall, hany => by
-    obtain ⟨t, ht⟩ := Option.isSome_iff_exists.mp (hall u List.mem_cons_self)
-    by_cases hct : t.constructType = c
-    · refine ⟨u, List.mem_cons_self, ?_⟩
-      have : tryUni ops eps c stdT h0 norm0 u = some (.ok ⟨u, c, stdT⟩) := by
-        unfold tryUni
-        simp only [ht, hct, ne_eq, not_true_eq_false, if_false]
-        rw [if_pos hc]
-      rw [List.findSome?_cons, this]
-    · have hnone : tryUni ops eps c stdT h0 norm0 u = none := by
-        unfold tryUni
-        simp only [ht, ne_eq, hct, not_false_eq_true, if_true]
-      have hany' : (l.any fun u => (magType? u).any fun t => t.constructType == c) = true := by
-        simp only [List.any_cons, Bool.or_eq_true] at hany
-        rcases hany with h | h
-        · simp [ht, hct] at h
-        · exact h
-      obtain ⟨u', hu', hf⟩ := findSome_type12 ops eps c hc stdT h0 norm0 l
-        (fun v hv => hall v (List.mem_cons_of_mem _ hv)) hany'
-      exact ⟨u', List.mem_cons_of_mem _ hu', by rw [List.findSome?_cons, hnone]; exact hf⟩
+/-- Non-vacuity: the range of ITA number 2 is UNI 4..7 (types I, II, III, IV), the range of number 230 ends at 1651. -/
+example : uniRange? 2 = some [4, 5, 6, 7] ∧ (uniRange? 230).map (fun r => r.getLast?) = some (some 1651) ∧
+    uniRange? 231 = none ∧ uniRange? 0 = none := by
+  decide +kernel
 
 /- Full completeness statement (NOT proved): for every UNI number `u`, every unimodular `(P, p)` and the tabulated
 primitive operations of `u` transformed by `(P, p)`, `identifyMag` returns `u`.  It needs completeness of the conjugator
@@ -236,9 +215,7 @@ theorem identify_mag_type12_complete_partial (ops : List MOpQ) (eps : Rat) (ref 
       · exact htab.1.2
       · exact htab.2
     obtain ⟨u, hu, hf⟩ := findSome_type12 ops eps c hc (sgTrans sg) (range.head?.bind refHall?)
-      (Thunk.mk fun _ => match (range.head?.bind refHall?).bind dbRef? with
-        | none => some []
-        | some (dbOps, gens) => normalizerAll dbOps gens eps) range htab.1.1 hany
+      (sharedNormalizer (range.head?.bind refHall?) eps) range htab.1.1 hany
     have hid : identifyMag ops eps = .ok ⟨u, c, sgTrans sg⟩ := by
       unfold identifyMag
       rw [href]
@@ -260,26 +237,16 @@ example :
 
 /-! ### table rows -/
 
-/-- Tabulated primitive magnetic operations of UNI number `u` (empty when `u` is not in the table). -/
-def tableMagOps (u : Nat) : List MOpQ := (dbMagOps? u).getD []
-
-def tableEps : Rat := 1 / 100000000
-
-/-- The row checker the compiled model evaluates on every table row of every run (`row 1`). -/
-def tableRowOK (u : Nat) : Bool :=
-  match identifyMag (tableMagOps u) tableEps with
-  | .ok g => g.uni == u && soundAnswer (tableMagOps u) tableEps g
-  | .error _ => false
-
 /- Full statement (NOT kernel-decided; covered by the exhaustive correspondence run of every check, harness command
 `mag-id-gen`, where the compiled model and the Rust code agree on all 1651 rows and the model's row check is `1`):
 `∀ u, 1 ≤ u → u ≤ 1651 → tableRowOK u = true`.  The kernel evaluates the Smith normal forms of the 9k×9 Sylvester systems
 without sharing (≈10 s and several GB each), which rules out all but the lowest-symmetry rows. -/
 
-/-- **Identification of the tabulated groups (partial: the triclinic rows UNI 1–7 — all four construct types).**  The
-model applied to the tabulated primitive operations of `u` returns `u` with the tabulated construct type, a unimodular
-transformation and (types III, IV) matching magnetic operations. -/
-theorem identify_mag_tables_partial : ∀ k, k < 7 → tableRowOK (k + 1) = true := by decide +kernel
+/-- **Identification of the tabulated groups (partial: UNI 1–10 — the triclinic rows with all four construct types and the
+types I, II, III over `P2`).**  The model applied to the tabulated primitive operations of `u` returns `u` with the
+tabulated construct type, a unimodular transformation and (types III, IV) matching magnetic operations
+(`S5m.tableRowOK`). -/
+theorem identify_mag_tables_partial : ∀ k, k < 10 → tableRowOK (k + 1) = true := by decide +kernel
 
 /-- Non-vacuity: rows 3 and 7 are type IV (`P 1 1c'`, `-P 1 1c'`), row 6 is type III. -/
 example : (magType? 3).map (·.constructType) = some 4 ∧ (magType? 6).map (·.constructType) = some 3 ∧
